@@ -60,7 +60,7 @@ def _ref_solve(items, seq, i, pos):
     return None
 
 
-def _mk_quant(skeleton, n, greedy_bits):
+def _mk_quant(skeleton, n, greedy_bits, static=0):
     """skeleton: list of ('a'|'.'|('a','b')|'lit:b') ; quantified items get symbolic (min, max, max_is_none)"""
     nq = sum(1 for s in skeleton if not (isinstance(s, str) and s.startswith('lit:')))
 
@@ -87,7 +87,12 @@ def _mk_quant(skeleton, n, greedy_bits):
             g = bool(greedy_bits >> qi & 1)
             cls = MQ if g else MQ.NG
             p = ... if s == '.' else list(s) if isinstance(s, tuple) else s
-            pats.append(cls(**{f't{qi}': p}, min=mn, max=None if unb else mx))
+            if static and not isinstance(p, list):
+                p = M(**{f'x{qi}': p})       # an inner tag: after the match it must hold the element of the LAST repetition kept, none if zero repetitions
+            if static:      # untagged quantifier (its inner tags surface at the top level), extra keywords = static tags of the quantifier
+                pats.append(cls(p, min=mn, max=None if unb else mx, **({f's{qi}': 1} if static >> qi & 1 else {})))
+            else:
+                pats.append(cls(**{f't{qi}': p}, min=mn, max=None if unb else mx))
             items.append((None if s == '.' else s, mn, None if unb else mx, g))
             qi += 1
         m = MGlobal(names=pats).match(ast.Global(names=seq))
@@ -99,16 +104,24 @@ def _mk_quant(skeleton, n, greedy_bits):
             return
         check(m is not None, 'quantifier.rejects_what_the_regex_accepts', (skeleton, seq, bounds, exp))
         qi = 0
-        for it, k in zip(items, exp):
-            if it[1:] == (1, 1, True) and isinstance(it[0], str) and len(pats) and not isinstance(pats[items.index(it)], MQ):
+        for ii_, (it, k) in enumerate(zip(items, exp)):
+            if it[1:] == (1, 1, True) and isinstance(it[0], str) and len(pats) and not isinstance(pats[ii_], MQ):
                 continue
-            check(f't{qi}' in m.tags, 'quantifier.capture_tag_missing_from_successful_match', (skeleton, seq, bounds, qi, sorted(m.tags)))
-            got = len(m.tags[f't{qi}'])
-            check(got == k, 'quantifier.captures_differ_from_regex_backtracking_order', (skeleton, seq, bounds, qi, got, exp))
+            if not static:
+                check(f't{qi}' in m.tags, 'quantifier.capture_tag_missing_from_successful_match', (skeleton, seq, bounds, qi, sorted(m.tags)))
+                got = len(m.tags[f't{qi}'])
+                check(got == k, 'quantifier.captures_differ_from_regex_backtracking_order', (skeleton, seq, bounds, qi, got, exp))
+            if static and not isinstance(it[0], tuple):
+                pos_ = sum(exp[:ii_])          # single-element items: elements consumed before this item
+                if k:
+                    check(m.tags.get(f'x{qi}') == seq[pos_ + k - 1], 'quantifier.inner_tag_is_not_from_the_last_kept_repetition', (skeleton, seq, bounds, qi, exp))
+                else:
+                    check(f'x{qi}' not in m.tags, 'quantifier.inner_tag_left_over_from_a_dropped_repetition', (skeleton, seq, bounds, qi, exp))
             qi += 1
         # a second, identical call gives the same answer (no state carried between matches)
         m2 = MGlobal(names=pats).match(ast.Global(names=seq))
-        check(m2 is not None and {k_: len(v) for k_, v in m2.tags.items()} == {k_: len(v) for k_, v in m.tags.items()}, 'quantifier.second_call_differs', (skeleton, seq))
+        _shape = lambda t_: {k_: (len(v) if isinstance(v, list) else v) for k_, v in t_.items()}     # noqa: E731
+        check(m2 is not None and _shape(m2.tags) == _shape(m.tags), 'quantifier.second_call_differs', (skeleton, seq))
         cover('accept')
     return k1
 
@@ -254,6 +267,13 @@ for _sk in SKELETONS:
                               f'pattern skeleton {_sk} (quantified items with SYMBOLIC min >= 0 and max >= min or None, all integers); target = {_n} symbolic letters from {{a,b,c}}; '
                               f'greedy bits {_g:b}', tier='quick' if _q else 'thorough', budget=900, per_path=60,
                               out='targets longer than 4; more than 2 quantified items; nested sub-list quantifiers; back-references'))
+for _sk in (('.', '.'), ('a', '.')):
+    for _n in (2, 3):
+        for _g in (3, 2, 1):
+            for _st in (1, 3):
+                CELLS.append(Cell(f'K1s.quant_static[{"".join(_sk)},n={_n},greedy={_g:02b},static={_st:02b}]', _mk_quant(list(_sk), _n, _g, _st), 'K', FNM[:3],
+                                  f'as K1.quant, with a STATIC tag on the quantifiers in mask {_st:02b} (static tags travel with every repetition and must not disturb backtracking or captures)',
+                                  tier='quick' if _g != 1 else 'thorough', budget=900, per_path=60))
 for _n in (0, 1, 2, 3, 4):
     for _md in (0, 1, 2):
         CELLS.append(Cell(f'K1b.bare[n={_n},mid={("none", "b", "any")[_md]}]', _mk_bare(_n, _md), 'K', FNM[:3],
